@@ -20,6 +20,15 @@ DCS_FNS = [r'^dcs::set_\w+::\w+::(instruction|fill_params_buf|new|with_all|as_u8
 
 NOT_APPLICABLE = {}
 
+MODELS = ['gc9107', 'gc9a01', 'ili9341rgb565', 'ili9341rgb666', 'ili9342crgb565', 'ili9342crgb666', 'ili9486rgb565', 'ili9486rgb666', 'ili9488rgb565', 'ili9488rgb666', 'rm67162', 'st7735s', 'st7789', 'st7796']
+UNSUPPORTED = {('gc9107', 2), ('rm67162', 2), ('ili9486rgb565', 0)}
+INIT_ALL = ['init_%s_k%d' % (m, k) for m in MODELS for k in (0, 1, 2)]
+# quick: every model on its first supported kind + the three refused pairings
+INIT_QUICK = ['init_%s_k%d' % (m, 1 if m == 'ili9486rgb565' else 0) for m in MODELS] + ['init_gc9107_k2', 'init_rm67162_k2', 'init_ili9486rgb565_k0']
+INIT_REST = [h for h in INIT_ALL if h not in INIT_QUICK]
+REFUSE = ['refuse_gc9107_k2', 'refuse_rm67162_k2', 'refuse_ili9486rgb565_k0']
+
+
 PROPS = {
     'C10': {
         'level_text': "Unbounded proof by representation invariant: Verus proves set_orientation (generic Model/transport) sends exactly one 0x36 whose byte is the MIPI encoding of (kept colour order, new orientation, kept refresh order), stores the new orientation and re-establishes Display::wf (madctl == encoding of options, window fits the framebuffer), on which every observer and drawing contract depends - so any history of calls is covered by induction. Kani cross-checks reported orientation/size/bounding box, equality with a freshly built state and placement of a following set_pixel for framebuffers 240x320 and 65535x65535, all options symbolic.",
@@ -33,6 +42,25 @@ PROPS = {
         'pairs': {r'set_orientation|orientation$|size$': ['c10_set_orientation_240x320']},
         'functions': ['Display::set_orientation', 'Display::orientation', 'OriginDimensions::size', 'ModelOptions::display_size', 'SetAddressMode::with_orientation'],
         'assumptions': ['Interface trait contract (generic DI)', 'Kani instantiations: framebuffers 240x320 and 65535x65535; Verus: every Model'],
+    },
+    'C11': {
+        'level_text': "Complete proof per instantiation: for each of the 14 built-in model types x 3 interface kinds, Kani symbolically executes the real Builder::init and the model's init sequence (loop-free) with ALL options symbolic (colour order, orientation, inversion, refresh order, every size/offset init accepts, with and without reset pin) against a decoding Interface mock on a shared virtual timeline, and proves: awake, display on, last MADCTL == MIPI encoding of the options, COLMOD matches the colour type, inversion as chosen, no memory write / pixel call, >= 120 ms of delay after sleep-out before return; unsupported pairings return UnsupportedInterface with zero model commands; every pairing supported on the unchanged tree stays supported. Quick tier: 17 pairings (every model + the 3 refused pairings); thorough: all 42.",
+        'level_note': "Per built-in model (finite set, enumerated; the driver checks that the harness list equals the model types found in src/models/*.rs). Third-party Model impls: not covered (trait contract assumed). Timing is virtual: sum of the arguments passed to the delay source. MIPI encoding oracle = support.rs::oracle_madctl (twin of vf::spec_madctl, proved equal to the code's byte in C14).",
+        'technique': 'Kani loop-free symbolic execution of the real init code per model x kind, all options symbolic',
+        'kani': {'groups': [{'quick': INIT_QUICK + REFUSE, 'thorough': INIT_REST, 'jobs': 12}]},
+        'models_guard': True,
+        'functions': ['Builder::init', 'Model::init for the 14 built-in models', 'ili934x::init_common', 'ili948x::init_common', 'SetAddressMode::from', 'InterfaceExt::{write_command,write_raw}'],
+        'assumptions': ['virtual time: >=120 ms means the sum of delay arguments', 'external Model implementations are not covered',
+                        'no-reset-pin path uses Builder<.., MockPin> with rst == None (same generic code; Kani 0.68 cannot codegen the uninhabited NoResetPin)'],
+    },
+    'C17': {
+        'level_text': "Complete proof per instantiation (same harness family as C11, assertions tagged C17): through the real Builder::init for every built-in model x interface kind x all option sets, with a reset pin the very first low-level operation is rst low, >= 10 us of delay pass before rst high, the pin is written exactly twice and left high, no 0x01 is sent and no bus operation precedes the rising edge; without a pin the first bus operation is the parameterless 0x01, sent exactly once. Ordering across pin / delay / bus is observed on one shared operation counter.",
+        'level_note': "Virtual time; pin/bus/delay mocks share one operation counter (cross-object order is decided here, not in Verus). No-pin path: rst == None with an inhabited pin type (Kani ICE on NoResetPin).",
+        'technique': 'Kani loop-free symbolic execution of Builder::init with a shared operation timeline',
+        'kani': {'groups': [{'quick': INIT_QUICK, 'thorough': INIT_REST, 'jobs': 12}]},
+        'models_guard': True,
+        'functions': ['Builder::init', 'Model::init (14 built-in models)'],
+        'assumptions': ['virtual time', 'no-reset-pin path uses an inhabited stand-in type for NoResetPin'],
     },
     'C14': {
         'level_text': 'Unbounded proof. Verus discharges, for the real text of SetAddressMode::{new,with_*,from,fill_params_buf} and MemoryMapping::from_orientation, postconditions equating the byte with a spec function written from the MIPI bit layout, plus bit-vector lemmas (disjoint masks, commutation, idempotence, bits 1-0 zero) over all 256 bytes. Kani re-proves the same statements on the compiled crate over all 256 x 2 x 8 x 4 inputs and all 6 setter orders (loop-free, complete) and supplies counterexamples.',
